@@ -403,12 +403,21 @@ def constructs(node, acc=None):
 
 # ---------------------------------------------------------------------------------------------- the reading (oracle)
 
+TRACK = {'max': 1}
+
+
 class Val:
     """labels: free index letters in documented order; arr: object array of exact values, axes = labels;
     summed: letters summed somewhere inside (they count as used twice)"""
 
     def __init__(self, labels, arr, summed):
         self.labels, self.arr, self.summed = list(labels), arr, set(summed)
+        for x in arr.flat:      # largest intermediate magnitude: scale of the rounding errors of the float evaluation
+            try:
+                m = abs(x)
+                if m > TRACK['max']: TRACK['max'] = m
+            except TypeError:
+                pass
 
 
 def _literal(text):
